@@ -30,7 +30,7 @@ func init() {
 				if rs, ok := n.(*ast.ReturnStmt); ok {
 					nret++
 					if len(rs.Results) == 1 {
-						call, _ = ast.Unparen(rs.Results[0]).(*ast.CallExpr)
+						call, _ = resolveLocal(info, fd.Body, rs.Results[0]).(*ast.CallExpr)
 					}
 				}
 				return true
@@ -40,7 +40,7 @@ func init() {
 			if nret == 1 && call != nil && stdFuncCalled(info, call, "fmt", "Sprintf") && len(call.Args) == 2 {
 				if tv, ok := info.Types[call.Args[0]]; ok && tv.Value != nil && tv.Value.Kind() == constant.String {
 					format = constant.StringVal(tv.Value)
-					if ce, ok := ast.Unparen(call.Args[1]).(*ast.CallExpr); ok && originOf(Callee(info, ce)) == ctr {
+					if ce, ok := resolveLocal(info, fd.Body, call.Args[1]).(*ast.CallExpr); ok && originOf(Callee(info, ce)) == ctr {
 						okShape = true
 					}
 				}
